@@ -199,6 +199,8 @@ func genDedup(r *vlib.R, tier string, emit func(string)) {
 		emit("dedup new 700 0 2")
 		emit(fmt.Sprintf("dedup burst ok%d %d %d %d %s 0", 20+r.Intn(60), 4+r.Intn(6), r.Intn(3), r.Intn(2), cancel()))
 		emit(fmt.Sprintf("dedup burst sf%d %d %d %d - 0", 20+r.Intn(40), 4+r.Intn(6), r.Intn(3), 0))
+		// budget-long upstream behind the two workers: the KNOWN queue-expiry finding (own signature)
+		emit(fmt.Sprintf("dedup burst %s %d %d %d - 0", vlib.Pick(r, []string{"hang", "stuck"}), 3+r.Intn(4), r.Intn(2), r.Intn(2)))
 		emit("dedup drain")
 	}
 	emit("dedup end")
@@ -216,10 +218,10 @@ func genWave(r *vlib.R, kind string, groups int) string {
 	var parts []string
 	total := 0
 	zones := append(append([]string{}, zRecov...), zFastFail...)
+	// (with kind "i" the slow zones put queries into the ready queue for their whole
+	// budget: the KNOWN finding of notes/C11.md, reported under its own signature)
+	zones = append(zones, zSlow...)
 	if kind != "i" {
-		// a tiny ingress pool in front of resolutions that last the whole budget is the
-		// candidate finding of notes/C11.md (expired in the ready queue); not generated
-		zones = append(zones, zSlow...)
 		zones = append(zones, zSlow...)
 	}
 	for i := 0; i < groups && total < 64; i++ {
